@@ -330,5 +330,318 @@ pub fn c15_nonblocking_full_pipe(out: &mut Out) {
 			}
 		}
 	}
+	// The pipe is ALREADY full when xt starts (a stalled consumer that another
+	// producer filled), and xt's whole output fits its own buffer: the only
+	// write xt attempts is a flush, after an input or at exit.
+	let missing = format!("{dir}/missing.json");
+	let bad = format!("{dir}/bad.json");
+	std::fs::write(&bad, b"[1, 2,\n").expect("write");
+	let small2 = format!("{dir}/small2.json");
+	std::fs::write(&small2, b"{\"a\": [true, null]}\n").expect("write");
+	for (_, bin) in bins() {
+		for args in [
+			vec!["-tj".to_string(), small.clone()],
+			vec!["-ty".to_string(), small.clone(), small2.clone()],
+			vec!["-tj".to_string(), small.clone(), missing.clone()],
+			vec!["-ty".to_string(), small.clone(), bad.clone()],
+			vec!["-tm".to_string(), small.clone(), small2.clone(), missing.clone()],
+		] {
+			let mut fds = [0 as libc::c_int; 2];
+			let mut prefill = 0usize;
+			// SAFETY: plain libc calls; both descriptors are owned here and
+			// handed to `File` / `Stdio`, which close them.
+			let (read_end, write_end) = unsafe {
+				if libc::pipe(fds.as_mut_ptr()) != 0 {
+					continue;
+				}
+				let fl = libc::fcntl(fds[1], libc::F_GETFL);
+				libc::fcntl(fds[1], libc::F_SETFL, fl | libc::O_NONBLOCK);
+				let block = [b'#'; 4096];
+				loop {
+					let n = libc::write(fds[1], block.as_ptr() as *const libc::c_void, block.len());
+					if n <= 0 {
+						break;
+					}
+					prefill += n as usize;
+				}
+				let one = [b'#'; 1];
+				while libc::write(fds[1], one.as_ptr() as *const libc::c_void, 1) == 1 {
+					prefill += 1;
+				}
+				(std::fs::File::from_raw_fd(fds[0]), Stdio::from_raw_fd(fds[1]))
+			};
+			let child = Command::new(&bin).args(&args).stdin(Stdio::null()).stdout(write_end).stderr(Stdio::piped()).spawn();
+			let Ok(child) = child else { continue };
+			let outp = child.wait_with_output();
+			let Ok(outp) = outp else { continue };
+			let mut got = vec![];
+			let mut read_end = read_end;
+			let _ = read_end.read_to_end(&mut got);
+			let got = got[prefill.min(got.len())..].to_vec();
+			let to = Fmt::from_name(&args[0][2..]).unwrap_or(Fmt::Json);
+			let good: Vec<&String> = args[1..].iter().filter(|f| **f != missing && **f != bad).collect();
+			let expected = crate::xtapi::translate_many(&good.iter().map(|f| (std::fs::read(f).unwrap_or_default(), Supply::Slice, Some(Fmt::Json))).collect::<Vec<_>>(), to).1;
+			let stderr = String::from_utf8_lossy(&outp.stderr).into_owned();
+			let key = format!("prefilled {}", args.join(" "));
+			out.eval("status_0_means_all_written_nonblocking", &key, true);
+			let code = outp.status.code();
+			if code == Some(0) && got != expected {
+				out.fail(
+					"status_0_means_all_written_nonblocking",
+					"",
+					format!("xt {} with standard output a non-blocking pipe that is full from the start ({} bytes queued, consumer stalled): exit 0 but only {} of {} bytes of output were written", args.join(" "), prefill, got.len(), expected.len()),
+				);
+			}
+			let blames_later = [&missing, &bad].iter().any(|f| args.contains(f) && stderr.contains(f.as_str()));
+			if blames_later {
+				out.eval("earlier_output_survives_nonblocking", &key, true);
+				if got != expected {
+					out.fail(
+						"earlier_output_survives_nonblocking",
+						"",
+						format!("xt {} with standard output a full non-blocking pipe: exit {:?} blaming the later input ({:?}) but only {} of the {} bytes that translate the finished inputs were written", args.join(" "), code, stderr.trim_end(), got.len(), expected.len()),
+					);
+				}
+			}
+		}
+	}
+	let _ = std::fs::remove_dir_all(&dir);
+}
+
+/// Runs the binary with raw (possibly non-UTF-8) arguments in `dir`; stdin is
+/// /dev/null or the given bytes.  Returns (exit code or None for a signal,
+/// stdout, stderr).
+fn run_os(bin: &str, dir: &str, args: &[std::ffi::OsString], stdin: Option<&[u8]>) -> Option<(Option<i32>, Vec<u8>, Vec<u8>)> {
+	use std::io::Write;
+	use std::process::{Command, Stdio};
+	let mut child = Command::new(bin)
+		.args(args)
+		.current_dir(dir)
+		.stdin(if stdin.is_some() { Stdio::piped() } else { Stdio::null() })
+		.stdout(Stdio::piped())
+		.stderr(Stdio::piped())
+		.spawn()
+		.ok()?;
+	if let Some(bytes) = stdin {
+		let mut si = child.stdin.take()?;
+		let _ = si.write_all(bytes);
+	}
+	let o = child.wait_with_output().ok()?;
+	Some((o.status.code(), o.stdout, o.stderr))
+}
+
+/// C13: arguments are byte strings, not text. A file operand whose name is not
+/// UTF-8 is an input like any other; a `-f` / `-t` value that is not UTF-8 is an
+/// invalid name (status 2 + usage); nothing of the kind may end the process
+/// with anything but 0, 1 or 2.
+pub fn c13_non_utf8_arguments(out: &mut Out) {
+	use std::ffi::OsString;
+	use std::os::unix::ffi::OsStringExt;
+	let dir = procs::scratch_dir("c13u");
+	let os = |b: &[u8]| OsString::from_vec(b.to_vec());
+	let good_name: &[u8] = b"caf\xe9.json"; // Latin-1, not UTF-8
+	let good_plain: &[u8] = b"\xff\xfe";
+	let missing: &[u8] = b"missing-\xff.json";
+	let ok_a = std::fs::write(std::path::Path::new(&dir).join(os(good_name)), b"{\"a\": [1, 2]}\n").is_ok();
+	let ok_b = std::fs::write(std::path::Path::new(&dir).join(os(good_plain)), b"[true]\n").is_ok();
+	let _ = std::fs::write(format!("{dir}/plain.json"), b"[0]\n");
+	if !(ok_a && ok_b) {
+		out.count("non_utf8_args.filesystem_refuses_such_names");
+		let _ = std::fs::remove_dir_all(&dir);
+		return;
+	}
+	// (arguments, expected status, expected stdout if 0, bytes stderr must contain)
+	let cases: Vec<(Vec<&[u8]>, i32, &[u8], &[u8])> = vec![
+		(vec![b"-tj", good_name], 0, b"{\"a\":[1,2]}\n", b""),
+		(vec![b"-tj", b"--", good_name], 0, b"{\"a\":[1,2]}\n", b""),
+		(vec![b"-tj", b"plain.json", good_name], 0, b"[0]\n{\"a\":[1,2]}\n", b""),
+		(vec![b"-tj", b"-fj", good_plain], 0, b"[true]\n", b""),
+		(vec![b"-tj", good_plain], 0, b"[true]\n", b""),
+		(vec![b"-tj", missing], 1, b"", b"xt error in missing-"),
+		(vec![b"-tj", b"plain.json", missing], 1, b"[0]\n", b"xt error in missing-"),
+		(vec![b"-f", b"js\xffn", b"plain.json"], 2, b"", b"Usage:"),
+		(vec![b"-fj\xff", b"plain.json"], 2, b"", b"Usage:"),
+		(vec![b"-t", b"\xff", b"plain.json"], 2, b"", b"Usage:"),
+		(vec![b"-t=\xe9", b"plain.json"], 2, b"", b"Usage:"),
+		(vec![b"--\xff", b"plain.json"], 2, b"", b"Usage:"),
+	];
+	for (_, bin) in bins() {
+		for (args, want, stdout, needle) in &cases {
+			let argv: Vec<OsString> = args.iter().map(|a| os(a)).collect();
+			let Some((code, so, se)) = run_os(&bin, &dir, &argv, None) else { continue };
+			let shown = args.iter().map(|a| String::from_utf8_lossy(a).into_owned()).collect::<Vec<_>>().join(" ");
+			out.eval("non_utf8_arguments", &shown, true);
+			let stderr = String::from_utf8_lossy(&se).into_owned();
+			let ok = code == Some(*want)
+				&& (*want != 0 || (so == *stdout && se.is_empty()))
+				&& (*want == 0 || (stderr.starts_with("xt error") && se.windows(needle.len().max(1)).any(|w| w == *needle)))
+				&& (*want != 2 || so.is_empty())
+				&& (*want != 1 || so == *stdout);
+			if !ok {
+				out.fail(
+					"non_utf8_arguments",
+					"",
+					format!(
+						"xt {} (arguments as bytes: {}): exit {:?}, stdout {}, stderr {:?} — expected exit {} {}",
+						shown,
+						args.iter().map(|a| hex(a)).collect::<Vec<_>>().join(" "),
+						code,
+						hex(&so),
+						stderr,
+						want,
+						match want {
+							0 => "with the translation on stdout and an empty stderr",
+							1 => "with `xt error in <that input>` on stderr",
+							_ => "with `xt error` + usage on stderr and nothing on stdout",
+						}
+					),
+				);
+			}
+		}
+	}
+	let _ = std::fs::remove_dir_all(&dir);
+}
+
+/// C13 / C03 / C14: an input is whatever the path delivers when read — a named
+/// pipe, /dev/stdin, a procfs file (all report size 0) are read to their end
+/// like a regular file. Compared with the library on the same bytes.
+pub fn special_file_inputs(out: &mut Out) {
+	use std::ffi::OsString;
+	let dir = procs::scratch_dir("c13s");
+	let _ = std::fs::write(format!("{dir}/reg.json"), b"{\"r\": 1}\n");
+	let _ = std::fs::write(format!("{dir}/empty.json"), b"");
+	let ostype = std::fs::read("/proc/sys/kernel/ostype").unwrap_or_default();
+	// (what the special input delivers, its explicit format if any)
+	let contents: Vec<(&str, Vec<u8>, Option<Fmt>)> = vec![
+		("good json", b"[1, {\"k\": null}]\n{\"second\": true}\n".to_vec(), None),
+		("malformed json", b"{\"a\": [1, 2,\n".to_vec(), Some(Fmt::Json)),
+		("good yaml", b"k: v\n---\n- 1\n".to_vec(), Some(Fmt::Yaml)),
+		("undetectable", b"just some words\n".to_vec(), None),
+	];
+	let mkfifo = |p: &str| -> bool {
+		let Ok(c) = std::ffi::CString::new(p) else { return false };
+		// SAFETY: plain libc call with a valid NUL-terminated path.
+		unsafe { libc::mkfifo(c.as_ptr(), 0o600) == 0 }
+	};
+	for (_, bin) in bins() {
+		for to in [Fmt::Json, Fmt::Yaml, Fmt::Msgpack] {
+			for (what, bytes, from) in &contents {
+				for (kind, before, after) in [("fifo", false, false), ("fifo", true, false), ("fifo", false, true), ("devstdin", false, false), ("devstdin", true, true)] {
+					let fifo = format!("{dir}/pipe-{}", kind);
+					let _ = std::fs::remove_file(&fifo);
+					let mut args: Vec<OsString> = vec![format!("-t{}", to.letter()).into()];
+					if let Some(f) = from {
+						args.push(format!("-f{}", f.letter()).into());
+					}
+					// with an explicit -f every operand is read as that format: keep the
+					// regular files out of those runs unless they are JSON too
+					let reg_ok = from.is_none() || *from == Some(Fmt::Json);
+					let mut expected_inputs: Vec<(Vec<u8>, Supply, Option<Fmt>)> = vec![];
+					if before && reg_ok {
+						args.push("reg.json".into());
+						expected_inputs.push((b"{\"r\": 1}\n".to_vec(), Supply::Slice, *from));
+					}
+					let special = if kind == "fifo" { fifo.clone() } else { "/dev/stdin".to_string() };
+					args.push(special.clone().into());
+					expected_inputs.push((bytes.clone(), Supply::Reader(vec![]), *from));
+					if after && reg_ok {
+						args.push("reg.json".into());
+						expected_inputs.push((b"{\"r\": 1}\n".to_vec(), Supply::Slice, *from));
+					}
+					let (results, lib_out) = crate::xtapi::translate_many(&expected_inputs, to);
+					let lib_ok = results.iter().all(|r| r.is_ok());
+					let run = if kind == "fifo" {
+						if !mkfifo(&fifo) {
+							out.count("special_inputs.mkfifo_failed");
+							continue;
+						}
+						let payload = bytes.clone();
+						let path = fifo.clone();
+						// the writer opens the pipe (blocks until xt opens it for reading), writes, closes
+						let feeder = std::thread::spawn(move || {
+							use std::io::Write;
+							if let Ok(mut f) = std::fs::OpenOptions::new().write(true).open(&path) {
+								let _ = f.write_all(&payload);
+							}
+						});
+						// a watchdog: should the binary never open the pipe, open it
+						// ourselves after a while so that the feeder is released
+						let r = {
+							let path2 = fifo.clone();
+							let (tx, rx) = std::sync::mpsc::channel::<()>();
+							let guard = std::thread::spawn(move || {
+								if rx.recv_timeout(Duration::from_secs(3)).is_err() {
+									// SAFETY: plain libc open of a path; the descriptor is closed right away.
+									unsafe {
+										if let Ok(c) = std::ffi::CString::new(path2) {
+											let fd = libc::open(c.as_ptr(), libc::O_RDONLY | libc::O_NONBLOCK);
+											if fd >= 0 {
+												std::thread::sleep(Duration::from_millis(200));
+												libc::close(fd);
+											}
+										}
+									}
+								}
+							});
+							let r = run_os(&bin, &dir, &args, None);
+							let _ = tx.send(());
+							let _ = guard.join();
+							r
+						};
+						let _ = feeder.join();
+						r
+					} else {
+						run_os(&bin, &dir, &args, Some(bytes))
+					};
+					let Some((code, so, se)) = run else { continue };
+					let shown = args.iter().map(|a| a.to_string_lossy().into_owned()).collect::<Vec<_>>().join(" ");
+					let key = format!("{shown} [{kind} delivers {what}]");
+					out.eval("special_file_inputs", &key, lib_ok);
+					let stderr = String::from_utf8_lossy(&se).into_owned();
+					let ok = if lib_ok {
+						code == Some(0) && so == lib_out && se.is_empty()
+					} else {
+						code == Some(1) && stderr.starts_with("xt error in ") && lib_out.starts_with(&so)
+					};
+					if !ok {
+						out.fail(
+							"special_file_inputs",
+							"",
+							format!(
+								"xt {key}: exit {:?}, stdout {}, stderr {:?}; the library on the same inputs gives {} with output {}",
+								code,
+								hex(&so),
+								stderr,
+								if lib_ok { "success".to_string() } else { format!("{:?}", results.iter().find(|r| r.is_err())) },
+								hex(&lib_out)
+							),
+						);
+					}
+				}
+			}
+			// a procfs file: size 0 for stat, content when read
+			if !ostype.is_empty() {
+				let args: Vec<OsString> = vec![format!("-t{}", to.letter()).into(), "-fy".into(), "/proc/sys/kernel/ostype".into()];
+				let lib = translate(&ostype, &Supply::Reader(vec![]), Some(Fmt::Yaml), to);
+				if let Some((code, so, se)) = run_os(&bin, &dir, &args, None) {
+					out.eval("special_file_inputs", &format!("procfs {}", to.name()), lib.ok());
+					if lib.ok() && !(code == Some(0) && so == lib.output && se.is_empty()) {
+						out.fail("special_file_inputs", "", format!("xt -t{} -fy /proc/sys/kernel/ostype: exit {:?}, stdout {}, stderr {:?}; the library on what the file delivers ({}) writes {}", to.letter(), code, hex(&so), String::from_utf8_lossy(&se), hex(&ostype), hex(&lib.output)));
+					}
+				}
+			}
+			// a truly empty regular file stays what it is for every explicit format
+			for f in [Fmt::Json, Fmt::Yaml, Fmt::Msgpack, Fmt::Toml] {
+				let args: Vec<OsString> = vec![format!("-t{}", to.letter()).into(), format!("-f{}", f.letter()).into(), "empty.json".into()];
+				let lib = translate(b"", &Supply::Slice, Some(f), to);
+				if let Some((code, so, _)) = run_os(&bin, &dir, &args, None) {
+					out.eval("special_file_inputs", &format!("empty {} {}", f.name(), to.name()), true);
+					if (lib.ok() && !(code == Some(0) && so == lib.output)) || (!lib.ok() && code != Some(1)) {
+						out.fail("special_file_inputs", "", format!("xt -t{} -f{} on an empty regular file: exit {:?}, stdout {}; the library gives {}", to.letter(), f.letter(), code, hex(&so), lib.describe()));
+					}
+				}
+			}
+		}
+	}
 	let _ = std::fs::remove_dir_all(&dir);
 }
